@@ -51,6 +51,9 @@ fn init_python() {
 #[derive(Clone, Debug, Serialize, Deserialize)]
 pub struct Found {
     pub property: String,
+    /// first unit of the worker process that met the violation (for history replays)
+    #[serde(default)]
+    pub range_start: u64,
     pub unit: u64,
     pub signature: String,
     pub message: String,
@@ -152,6 +155,7 @@ fn worker<S: Scenario>(
                 Err(Fail::Violation(v)) => {
                     let e = by_sig.entry(v.signature.clone()).or_insert_with(|| Found {
                         property: v.property.clone(),
+                        range_start: start,
                         unit,
                         signature: v.signature.clone(),
                         message: v.message.clone(),
@@ -623,6 +627,7 @@ fn check_impl<S: Scenario>(id: &str, tier: Tier) -> i32 {
                             };
                             let e = found.entry(sig.clone()).or_insert_with(|| Found {
                                 property: id.to_string(),
+                                range_start: u,
                                 unit: u,
                                 signature: sig,
                                 message: msg,
@@ -809,7 +814,7 @@ fn check_impl<S: Scenario>(id: &str, tier: Tier) -> i32 {
     let mut reported = 0;
     let mut code = 1;
     for f in unknown.iter().take(4) {
-        match report_violation(id, seed, f) {
+        match report_violation(id, seed, tier.name(), f) {
             Ok(path) => {
                 println!("  {}: {}", f.signature, f.message);
                 println!("VIOLATION property={} replay={}", id, path.display());
@@ -844,9 +849,15 @@ struct ReplayFile {
     minimised: bool,
     plan: Value,
     how_to_replay: String,
+    /// history replay: the violation needs these earlier units executed in the SAME process
+    /// (state shared across objects); `plan` is then the plan on which it shows
+    #[serde(default)]
+    units: Option<Vec<u64>>,
+    #[serde(default)]
+    tier: Option<String>,
 }
 
-fn report_violation(id: &str, seed: u64, f: &Found) -> Result<PathBuf, String> {
+fn report_violation(id: &str, seed: u64, tier_name: &str, f: &Found) -> Result<PathBuf, String> {
     let dir = scratch_dir();
     let rdir = verif_dir().join("replays");
     std::fs::create_dir_all(&rdir).map_err(|e| e.to_string())?;
@@ -897,6 +908,8 @@ fn report_violation(id: &str, seed: u64, f: &Found) -> Result<PathBuf, String> {
         minimised,
         plan,
         how_to_replay: format!("cd /verif && ./check replay {}", path.display()),
+        units: None,
+        tier: None,
     };
     std::fs::write(&path, serde_json::to_vec_pretty(&rf).unwrap()).map_err(|e| e.to_string())?;
     // replay in a fresh process must reproduce the same signature
@@ -912,13 +925,71 @@ fn report_violation(id: &str, seed: u64, f: &Found) -> Result<PathBuf, String> {
     let reproduced = text.contains(&format!("signature={}", f.signature))
         || (abort_sig && out.status.code().is_none())
         || (hang_sig && out.status.code() == Some(HANG_EXIT));
-    if !reproduced {
+    if reproduced {
+        return Ok(path);
+    }
+    // The single plan does not reproduce alone: the violation may need state left behind by
+    // plans executed earlier in the same worker process. Replay the worker's history.
+    let tier = tier_name.to_string();
+    let try_units = |units: &[u64]| -> Result<bool, String> {
+        let rf = ReplayFile {
+            property: id.to_string(),
+            seed,
+            unit: f.unit,
+            signature: f.signature.clone(),
+            message: format!(
+                "{} [shows only after the listed earlier units have run in the same process]",
+                f.message
+            ),
+            minimised: false,
+            plan: f.plan.clone(),
+            how_to_replay: format!("cd /verif && ./check replay {}", path.display()),
+            units: Some(units.to_vec()),
+            tier: Some(tier.clone()),
+        };
+        std::fs::write(&path, serde_json::to_vec_pretty(&rf).unwrap())
+            .map_err(|e| e.to_string())?;
+        let out = Command::new(&exe)
+            .arg("replay")
+            .arg(&path)
+            .stdin(Stdio::null())
+            .output()
+            .map_err(|e| e.to_string())?;
+        Ok(String::from_utf8_lossy(&out.stdout).contains(&format!("signature={}", f.signature)))
+    };
+    let full: Vec<u64> = (f.range_start..=f.unit).collect();
+    if !try_units(&full)? {
+        let _ = std::fs::remove_file(&path);
         return Err(format!(
-            "replay of {} in a fresh process did not reproduce signature {} (output: {})",
-            path.display(),
-            f.signature,
-            text.trim()
+            "signature {} reproduced neither from its plan alone nor from the worker's history (units {}..={})",
+            f.signature, f.range_start, f.unit
         ));
+    }
+    // shrink the history: shortest reproducing suffix, then drop single earlier units
+    let mut best = full.clone();
+    let mut k = 2usize;
+    while k < full.len() {
+        let cand = full[full.len() - k..].to_vec();
+        if try_units(&cand)? {
+            best = cand;
+            break;
+        }
+        k *= 2;
+    }
+    let mut i = 0;
+    let mut attempts = 0;
+    while i + 1 < best.len() && attempts < 48 {
+        let mut cand = best.clone();
+        cand.remove(i);
+        attempts += 1;
+        if try_units(&cand)? {
+            best = cand;
+        } else {
+            i += 1;
+        }
+    }
+    if !try_units(&best)? {
+        return Err("history replay became unstable while shrinking".into());
     }
     Ok(path)
 }
@@ -996,7 +1067,53 @@ pub fn replay_main(file: &str) -> i32 {
     dispatch!(id.as_str(), replay(&rf, file))
 }
 
+fn replay_history<S: Scenario>(rf: &ReplayFile, file: &str, units: &[u64]) -> i32 {
+    let tier = rf
+        .tier
+        .as_deref()
+        .and_then(Tier::parse)
+        .unwrap_or(Tier::Quick);
+    start_watchdog();
+    let mut obs = Obs::new(false);
+    let mut hit: Option<Violation> = None;
+    let mut n = 0u64;
+    for u in units {
+        S::unit(rf.seed, tier, *u, &mut |plan: S::Plan| {
+            HEARTBEAT.fetch_add(1, std::sync::atomic::Ordering::Relaxed);
+            obs.reset_run();
+            n += 1;
+            if let Err(Fail::Violation(v)) = S::execute(&plan, &mut obs) {
+                if v.signature == rf.signature && hit.is_none() {
+                    hit = Some(v);
+                    return false;
+                }
+            }
+            true
+        });
+        if hit.is_some() {
+            break;
+        }
+    }
+    println!("history replay: {} unit(s), {} plan(s) executed in one process", units.len(), n);
+    match hit {
+        Some(v) => {
+            println!("signature={}", v.signature);
+            println!("message={}", v.message);
+            println!("reproduced=yes");
+            println!("VIOLATION property={} replay={}", rf.property, file);
+            1
+        }
+        None => {
+            println!("replay: no violation (recorded signature was {})", rf.signature);
+            0
+        }
+    }
+}
+
 fn replay<S: Scenario>(rf: &ReplayFile, file: &str) -> i32 {
+    if let Some(units) = &rf.units {
+        return replay_history::<S>(rf, file, units);
+    }
     let plan: S::Plan = match serde_json::from_value(rf.plan.clone()) {
         Ok(p) => p,
         Err(e) => {
